@@ -838,6 +838,119 @@ def rule_composite(ctx):
             res.violate("%s : incumbent-label-not-a-member" % key, "the running arg-max is seeded with `%s::default()`: a row on which no member beats the seed probability keeps that label, which need not be the label of any member model" % (lab or "L"), fn_loc(fn, seeded[0]["ln"]))
         else:
             res.ok()
+    # the wrapper keeps every member it is given: a member list that passes through a keyed container (one entry per
+    # label) or a dropping adaptor loses members, and the label returned is then not that of the best member handed in
+    nb = 0
+    for fn in F.all_fns():
+        d = fn["d"]
+        if d["krate"] != "linfa" or not (d.get("self_adt") or "").endswith("MultiClassModel") or d["name"] == "predict_inplace":
+            continue
+        c = fn["crate"]
+        if not any(x.get("k") == "Struct" and (c.dfn(x.get("def")) or {}).get("path", "").endswith("MultiClassModel") for x in walk(fn["body"])):
+            continue
+        nb += 1
+        key = fn_key(fn)
+        res.instance("%s : member list keeps every member" % key)
+        bad = None
+        for x in walk(fn["body"]):
+            ty = c.ty(x.get("t")) or ""
+            if x.get("k") in ("MethodCall", "Call") and re.search(r"\b(BTreeMap|HashMap|BTreeSet|HashSet)<", ty):
+                bad = "a `%s`" % re.search(r"\b(BTreeMap|HashMap|BTreeSet|HashSet)\b", ty).group(1)
+                break
+            if x.get("k") == "MethodCall" and x["name"] in ("dedup", "dedup_by", "dedup_by_key", "filter", "take", "skip", "step_by", "retain", "take_while", "skip_while", "truncate"):
+                bad = "`.%s(..)`" % x["name"]
+                break
+        if bad:
+            res.violate("%s : members-dropped" % key, "the member models pass through %s before they are stored: members (two models for the same label, say) can be dropped, and the wrapper then returns the label of the best *remaining* member, not of the member with the highest probability" % bad, fn_loc(fn, x.get("ln")))
+        else:
+            res.ok()
+    if nb < 2:
+        res.missing_anchor("the constructors of MultiClassModel (new, from_iter; found %d)" % nb)
+    # Pr::try_from - the range check behind Pr::new - rejects NaN: evaluated abstractly with the argument = NaN (every
+    # ordered comparison false, `!=` true, range `contains` false)
+    for fn in [f for f in F.all_fns() if f["d"]["krate"] == "linfa" and f["d"]["name"] == "try_from" and (f["d"].get("self_adt") or "").endswith("Pr")]:
+        c = fn["crate"]
+        key = fn_key(fn)
+        res.instance("%s : NaN is rejected" % key)
+        pl = set(b["local"] for p_ in fn["params"] for b in pat_bindings(p_))
+
+        def mentions(e):
+            return any(y.get("k") == "Path" and y.get("local") in pl for y in walk(e))
+
+        def nan_val(e):
+            e = strip(e)
+            k_ = e.get("k")
+            if k_ == "Unary" and e.get("op") == "!":
+                v = nan_val(e["e"])
+                return None if v is None else (not v)
+            if k_ == "Binary":
+                if e["op"] == "&&":
+                    a, b = nan_val(e["l"]), nan_val(e["r"])
+                    if a is False or b is False:
+                        return False
+                    return True if (a and b) else None
+                if e["op"] == "||":
+                    a, b = nan_val(e["l"]), nan_val(e["r"])
+                    if a is True or b is True:
+                        return True
+                    return False if (a is False and b is False) else None
+                if e["op"] in ("<", "<=", ">", ">=", "==") and (mentions(e["l"]) or mentions(e["r"])):
+                    return False
+                if e["op"] == "!=" and (mentions(e["l"]) or mentions(e["r"])):
+                    return True
+                return None
+            if k_ == "MethodCall":
+                if e["name"] == "contains" and any(mentions(a) for a in e["args"]):
+                    return False
+                if e["name"] == "is_nan" and mentions(e["recv"]):
+                    return True
+                if e["name"] in ("is_finite", "is_normal") and mentions(e["recv"]):
+                    return False
+                return None
+            return None
+
+        def outcomes(e):
+            """(set of Ok/Err reachable with a NaN argument, definitely-returned?)"""
+            e = strip(e)
+            k_ = e.get("k")
+            if k_ == "Block":
+                acc = set()
+                for st in e.get("stmts") or []:
+                    o, done = outcomes(st.get("e") if st.get("k") in ("ExprStmt", "Semi") and st.get("e") is not None else st)
+                    acc |= o
+                    if done:
+                        return acc, True
+                if e.get("e") is not None:
+                    o, done = outcomes(e["e"])
+                    return acc | o, True
+                return acc, False
+            if k_ == "If":
+                v = nan_val(e["c"])
+                if v is True:
+                    return outcomes(e["then"])
+                if v is False:
+                    return outcomes(e["else"]) if e.get("else") is not None else (set(), False)
+                o1, d1 = outcomes(e["then"])
+                o2, d2 = outcomes(e["else"]) if e.get("else") is not None else (set(), False)
+                return o1 | o2, d1 and d2
+            if k_ == "Ret":
+                o, _ = outcomes(e["e"]) if e.get("e") is not None else (set(), True)
+                return o, True
+            if k_ == "Call":
+                f0 = strip(e["f"])
+                nm = (c.dfn(f0.get("def")) or {}).get("name") if f0.get("k") == "Path" else None
+                if nm in ("Ok", "Err"):
+                    return set([nm]), True
+            return set(), False
+        o, _ = outcomes(fn["body"])
+        if "Ok" in o and "Err" not in o:
+            res.violate("%s : nan-admitted" % key, "evaluated with a NaN argument the range check of Pr::try_from reaches `Ok`: a NaN decision value becomes a `Pr` outside [0, 1] (and wins or loses every comparison of the multi-class arg-max arbitrarily)", fn_loc(fn))
+        elif "Err" in o and "Ok" not in o:
+            res.ok()
+        elif not o:
+            res.undecided("%s : nan-path" % key, "the outcome of Pr::try_from for a NaN argument was not determined (fail closed)", fn_loc(fn))
+        else:
+            res.undecided("%s : nan-path" % key, "for a NaN argument both Ok and Err are reachable as far as the analysis can tell (fail closed)", fn_loc(fn))
     # MultiTargetModel: into_shape((models, n)) followed by reversed_axes
     for fn in [f for f in predictors(F) if (f["d"].get("self_adt") or "").endswith("MultiTargetModel") and f["d"]["name"] == "predict_inplace"]:
         r = Render(fn["crate"])
@@ -875,7 +988,7 @@ def rule_composite(ctx):
             res.ok()
         else:
             res.violate("%s : unchecked-probability" % key, "platt_predict builds its result with %s instead of the range-checked Pr::new only" % sorted(ctors), fn_loc(fn))
-    return res.finish(4)
+    return res.finish(7)
 
 
 def rule_overwrite(ctx):
